@@ -214,9 +214,12 @@ func (g *gen) stTupleByteArray() *Node {
 	nm := g.newName(false)
 	b := vr(nm)
 	var decl, whole, part, fold *Node
+	useCall := false
 	nested := g.chance(25)
 	if nested {
-		mk := func() *Node { return &Node{K: "alit", T: "[2][2]byte", A: []*Node{blit("[2]byte", 2), blit("[2]byte", 2)}} }
+		mk := func() *Node {
+			return &Node{K: "alit", T: "[2][2]byte", A: []*Node{blit("[2]byte", 2), blit("[2]byte", 2)}}
+		}
 		decl, whole = mk(), mk()
 		part = &Node{K: "index", A: []*Node{{K: "index", A: []*Node{b, ilit(int64(g.n(2, "tbi")))}}, ilit(int64(g.n(2, "tbj")))}}
 		el := func(i, j int64) *Node {
@@ -233,7 +236,10 @@ func (g *gen) stTupleByteArray() *Node {
 			whole.A[g.n(3, "tbw")] = val()
 		}
 		var idx *Node = ilit(int64(g.n(3, "tbi")))
-		if g.chance(35) {
+		// (with the call form below the index stays a constant: tickba changes g9, and Go does not say whether an
+		// index operand that READS a variable is evaluated before or after a call on the right changes it)
+		useCall = g.tickOK() && g.chance(40)
+		if !useCall && g.chance(35) {
 			e := g.genInt(1)
 			g.noteExpr(e)
 			idx = bin("&", e.n, ilit(1))
@@ -245,7 +251,7 @@ func (g *gen) stTupleByteArray() *Node {
 	}
 	var st *Node
 	switch {
-	case !nested && g.tickOK() && g.chance(40):
+	case !nested && useCall:
 		g.tickUse()
 		g.tickbaFn = true
 		st = &Node{K: "mret", S: "=", N: 2, A: []*Node{b, part, {K: "call", S: tickbaName, A: []*Node{ilit([]int64{3, 7, 15}[g.n(3, "tbk")])}}}}
